@@ -20,7 +20,7 @@ LIM = {"quick": dict(NP=3), "thorough": dict(NP=5)}
 
 
 def bounds(tier):
-  d = dict(LIM[tier]); d["meaning"] = "NP = max pending events; kind 0 fifo/1 lifo; when 0 subscribe before start_at/1 after; two 0/1 a second publication follows"
+  d = dict(LIM[tier]); d["meaning"] = "NP = max pending events; kind 0 fifo/1 lifo; when 0 subscribe before start_at/1 after; two 0/1 a second publication follows; plain 0/1/2 a plain deque subscribes to the same signal and kind before / after the object"
   return d
 
 
@@ -28,7 +28,7 @@ def pre(v, lim):
   return v["np"] <= lim["NP"]
 
 
-def case(np_, kind, when, two):
+def case(np_, kind, when, two, plain=0):
   hsm, ao = fabric.install()
   from miros.event import Event, signals, return_status
   K = "lifo" if kind else "fifo"
@@ -42,6 +42,11 @@ def case(np_, kind, when, two):
     return return_status.SUPER
 
   ev = Event(signal="NEWS")
+  # another subscriber of the same signal and kind: a plain deque registered directly with the fabric, before (1) or after (2) the object
+  from collections import deque as _deque
+  other = _deque(["old"], maxlen=10)
+  if plain == 1:
+    a.fabric.subscribe(other, ev, K)
   if when == 0:
     a.subscribe(ev, queue_type=K)
   a.start_at(only)
@@ -49,7 +54,9 @@ def case(np_, kind, when, two):
     a.next_rtc()            # the object's thread would handle the subscription request it posted to itself
   else:
     a.subscribe(ev, queue_type=K)
-  what = "np=%d kind=%s subscribed %s start" % (np_, K, "after" if when else "before")
+  if plain == 2:
+    a.fabric.subscribe(other, ev, K)
+  what = "np=%d kind=%s subscribed %s start%s" % (np_, K, "after" if when else "before", ["", ", a plain deque subscribed before it", ", a plain deque subscribed after it"][plain])
   table = a.fabric.lifo_subscriptions if kind else a.fabric.fifo_subscriptions
   if not any(q is a.queue for q in table.get("NEWS", [])):
     return FAIL("not-subscribed", what)
@@ -73,10 +80,15 @@ def case(np_, kind, when, two):
     if not kind and now and now[-1] is not pubs[-1]:
       return FAIL("fifo-subscription-not-at-back", "%s: queue %s expected %s" % (what, names(now), names(want)))
     return FAIL("queue-content", "%s: queue %s expected %s" % (what, names(now), names(want)))
+  if plain:
+    # a plain deque subscriber receives every publication once, at its back (test_subscribe_lilo pins that for lifo as well)
+    got = list(other)
+    if got[0] != "old" or len(got) != 1 + len(pubs) or any(x is not y for x, y in zip(got[1:], pubs)):
+      return FAIL("plain-deque-subscriber-content", "%s: the plain deque holds %r" % (what, got))
   return PASS(nontrivial=np_ > 0)
 
 
-Family(globals(), "h_lifo_sub", params=[("np", 0, 5), ("kind", 0, 1), ("when", 0, 1), ("two", 0, 1)],
+Family(globals(), "h_lifo_sub", params=[("np", 0, 5), ("kind", 0, 1), ("when", 0, 1), ("two", 0, 1), ("plain", 0, 2)],
        pre=pre, case=case, split=[], tiers=LIM)
 
 
